@@ -84,10 +84,10 @@ def thorough_matrix():
     for el, al, st in (("TC4", "amc", "uint32_t"), ("TR", "ledgerrealloc", "uint8_t"), ("NTR", "ledgerstd", "uint16_t"), ("PTN", "ledgerbasic", "int32_t")):
         m.append(inst("small", 2, el, st=st, alloc=al, K=2, L=3))
         m.append(inst("small", 1, el, st=st, alloc=al, K=2, L=3, opts=["--few-ranges"]))
-        m.append(inst("small", 3, el, st=st, alloc=al, K=2, L=4, opts=["--few-ranges", "--no-ctors", "--no-menu"]))
+        m.append(inst("small", 3, el, st=st, alloc=al, K=2, L=3, opts=["--few-ranges", "--no-ctors"]))
         m.append(inst("vector", 0, el, st=st, alloc=al, K=2, L=3))
         m.append(inst("fixed", 3, el, st="uint8_t", K=2, L=3, opts=["--few-ranges"]))
-    m.append(inst("small", 2, "TC4", K=2, L=4, opts=["--few-ranges", "--no-ctors", "--no-menu"]))
+    m.append(inst("small", 2, "TC4", K=2, L=4, opts=["--few-ranges", "--no-ctors", "--no-menu", "--no-alias"]))
     # C++20 (<=>, erase, erase_if), C++14/11 are covered by C16's replayer builds
     for el in ("TC4", "TR", "NTR"):
         m.append(inst("small", 2, el, std="c++20", alloc="ledgerstd", L=4))
@@ -111,10 +111,13 @@ def _vkind(i):
     return i["flavour"]
 
 
-def run_one(i, deadline_s, eng=None):
-    """Run one instantiation; returns dict(result json | crash info)."""
+def run_one(i, deadline_s, eng=None, ctx=None):
+    """Run one instantiation; returns dict(result json | crash info).  The deadline is the check's global one: an
+    instantiation that starts late gets what is left (at least 20 s) and reports itself incomplete if that is not enough."""
     eng = eng or E1ENG
     binp = eng.build(i)
+    if ctx is not None:
+        deadline_s = max(20, ctx.time_left() - 45)
     os.makedirs(vlib.BUILD, exist_ok=True)
     fd, crumb = tempfile.mkstemp(prefix="crumb-", dir=vlib.BUILD)
     os.close(fd)
@@ -185,13 +188,13 @@ def opkind(op):
     return k
 
 
-def explore(ctx, matrix, want_tags, engine="E1", any_fail_counts=False, eng=None, only_faulted=False, only_claiming=False):
+def explore(ctx, matrix, want_tags, engine="E1", any_fail_counts=False, eng=None, only_faulted=False, only_claiming=False, any_fail_on_ops=None):
     """Run the matrix; record violations whose tags intersect want_tags (or every failure if any_fail_counts)."""
     eng = eng or E1ENG
     name = eng.name
     per_deadline = max(60, ctx.time_left() - 90)
     vlib.pmap(eng.build, matrix)  # parallel builds (BuildError propagates)
-    infos = vlib.pmap(lambda i: run_one(i, per_deadline, eng), matrix)
+    infos = vlib.pmap(lambda i: run_one(i, per_deadline, eng, ctx), sorted(matrix, key=lambda i: -i.get('K', 1) * 100 - i.get('L', 0)))
     tot = dict(states=0, transitions=0, outcomes=0, violating=0)
     samples, insts, exhaustive = [], [], True
     maxdepth = 0
@@ -236,7 +239,8 @@ def explore(ctx, matrix, want_tags, engine="E1", any_fail_counts=False, eng=None
             continue  # nothing was relocated in this instantiation: its failures belong to other properties
         for v in res["violations"]:
             tags = set(v["tags"].split(","))
-            if not (any_fail_counts or (tags & set(want_tags))):
+            on_op = any_fail_on_ops is not None and re.search(any_fail_on_ops, v["op"].split(":")[0]) is not None
+            if not (any_fail_counts or on_op or (tags & set(want_tags))):
                 continue
             if only_faulted and "!" not in (v["hist"] + v["op"]):
                 continue  # no injected fault on this history: belongs to another property
